@@ -64,6 +64,23 @@ theorem maxLive_seqLog (i n : Nat) : maxLive (seqLog i n) = if n = 0 then 0 else
 theorem maxLive_seqLog_le (i n : Nat) : maxLive (seqLog i n) ≤ 1 := by
   rw [maxLive_seqLog]; split <;> simp
 
+/-! ### the `Wait` window: two attempts alive -/
+
+theorem maxLiveFrom_overlapTail (i m mx : Nat) :
+    maxLiveFrom 1 mx (overlapTail i m) = if m = 0 then mx else max mx 2 := by
+  induction m generalizing i mx with
+  | zero => simp [overlapTail, maxLiveFrom]
+  | succ m ih =>
+    simp only [overlapTail, maxLiveFrom, Nat.add_sub_cancel, ih]
+    split <;> simp [Nat.max_assoc]
+
+/-- in the `Wait`-window schedule two attempts are alive as soon as there are two attempts -/
+theorem maxLive_overlapLog (n : Nat) : maxLive (overlapLog (n + 2)) = 2 := by
+  simp [maxLive, overlapLog, maxLiveFrom, maxLiveFrom_overlapTail]
+
+theorem overlapLog_ne_seqLog (n : Nat) : overlapLog (n + 2) ≠ seqLog 1 (n + 2) := by
+  simp [overlapLog, overlapTail, seqLog]
+
 /-- the subscriptions recorded in a log -/
 def subsOf : List Ev → List Nat
   | [] => []
